@@ -203,6 +203,11 @@ def havoc_target(st: State, target):
         _, ref = target
         for f, (d, t) in all_fields(ref.t.cls).items():
             write_field(heap, ref, f, t.fresh(f"hv_{f}"))
+    elif kind == "fieldarray":
+        _, cname, field = target
+        d, t = decl.find_field(cname, field)
+        for k, s_ in zip(field_keys(d.short, field, t), t.sorts()):
+            heap.set(k, z3.Const(fresh_name(f"hv_{field}_all"), z3.ArraySort(z3.IntSort(), s_)))
     elif kind == "contents":
         _, c = target
         t = c.t
@@ -228,7 +233,11 @@ def target_locations(target):
     """(heap key, ref term) pairs covered by a modifies target (for frame obligations)."""
     kind = target[0]
     out = []
-    if kind == "field":
+    if kind == "fieldarray":
+        _, cname, field = target
+        d, t = decl.find_field(cname, field)
+        out += [(k, None) for k in field_keys(d.short, field, t)]  # None: every object
+    elif kind == "field":
         _, ref, field = target
         d, t = decl.find_field(ref.t.cls, field)
         out += [(k, ref.v) for k in field_keys(d.short, field, t)]
